@@ -4,6 +4,7 @@ package confmap
 
 import (
 	"context"
+	"encoding/json"
 	"errors"
 	"fmt"
 	"math"
@@ -12,7 +13,9 @@ import (
 	"sort"
 	"strconv"
 	"strings"
+	"sync/atomic"
 	"testing"
+	"time"
 )
 
 // ---------------------------------------------------------------------------------------------
@@ -31,13 +34,31 @@ func (e *vEntry) retrieve() (*Retrieved, error) {
 	return NewRetrievedFromYAML(e.yaml)
 }
 
+// vCalls: per-Resolve provider call counter. A resolver that does not terminate on a reference cycle keeps calling
+// providers: after `budget` calls (far above anything 1000 rounds can need) they refuse, and they honour ctx.
+type vCalls struct {
+	n      atomic.Int64
+	budget int64
+}
+
 type vProv struct {
 	scheme string
 	tab    map[string]*vEntry
+	calls  *vCalls
+	inline bool // the location IS the YAML text (like the yaml provider: --config=yaml:… / --set)
 }
 
-func (p *vProv) Retrieve(_ context.Context, uri string, _ WatcherFunc) (*Retrieved, error) {
+func (p *vProv) Retrieve(ctx context.Context, uri string, _ WatcherFunc) (*Retrieved, error) {
+	if err := ctx.Err(); err != nil {
+		return nil, fmt.Errorf("verif-watchdog: %w", err)
+	}
+	if p.calls != nil && p.calls.n.Add(1) > p.calls.budget {
+		return nil, errors.New("verif-watchdog: provider call budget exceeded")
+	}
 	name := uri[len(p.scheme)+1:]
+	if p.inline {
+		return NewRetrievedFromYAML([]byte(name))
+	}
 	e, ok := p.tab[name]
 	if !ok {
 		return nil, errors.New("verif-provider-error: not found")
@@ -224,6 +245,17 @@ type vCase struct {
 	tokOnly       bool
 	kind          string
 	loc           []int // location id per entry of srcs (nil: all distinct)
+	inline        map[int]string // entry index -> YAML text that IS the location ("vyaml:<text>"); srcs[i] is its parsed form
+}
+
+var (
+	vHangs     int   // Resolve calls stopped by the watchdog so far (the run stops after 3)
+	vMaxCalls  int64 // largest number of provider calls of one Resolve that returned by itself
+	vMaxMillis int64
+)
+
+func vEnvMillis(name string, def int) time.Duration {
+	return time.Duration(vEnvInt(name, def)) * time.Millisecond
 }
 
 // vRepeat makes some locations occur again later in the URI list (adjacent and non-adjacent), up to 5 entries;
@@ -402,7 +434,7 @@ func vHasRef(ts []vTok) bool {
 	return false
 }
 
-func (c *vCase) run(out *vOut, idx int) {
+func (c *vCase) run(out *vOut, idx int) (stuck bool) {
 	out.Linef("case %d kind=%s", idx, c.kind)
 	defer out.Flush()
 	defer out.Linef("end")
@@ -450,16 +482,18 @@ func (c *vCase) run(out *vOut, idx int) {
 	}
 
 	// the real resolver
+	calls := &vCalls{budget: int64(vEnvInt("VERIF_C12_CALL_BUDGET", 400000))}
 	factories := []ProviderFactory{}
 	for _, s := range vSchemes {
-		p := &vProv{scheme: s, tab: c.provs[s]}
+		p := &vProv{scheme: s, tab: c.provs[s], calls: calls}
 		factories = append(factories, NewProviderFactory(func(ProviderSettings) Provider { return p }))
 	}
 	// c.srcs is the URI list AS GIVEN to the resolver; c.loc[i] is the location of entry i, so the same location may
-	// occur several times (adjacent or not) and must be merged again each time
+	// occur several times (adjacent or not) and must be merged again each time. Entries in c.inline are top-level
+	// locations that embed their content ("vyaml:<yaml text>", with $ references, $$ escapes, lone $).
 	srcTab := map[string]*vEntry{}
 	uris := make([]string, len(c.srcs))
-	repeats := 0
+	repeats, inlines := 0, 0
 	for i, s := range c.srcs {
 		l := i
 		if c.loc != nil {
@@ -470,23 +504,68 @@ func (c *vCase) run(out *vOut, idx int) {
 		}
 		srcTab[strconv.Itoa(l)] = &vEntry{raw: s, isRaw: true}
 		uris[i] = "vsrc:" + strconv.Itoa(l)
+		if txt, ok := c.inline[i]; ok {
+			uris[i] = "vyaml:" + txt
+			inlines++
+		}
 	}
 	out.Linef("stat repeated_locations %d", repeats)
-	sp := &vProv{scheme: "vsrc", tab: srcTab}
+	out.Linef("stat inline_sources %d", inlines)
+	sp := &vProv{scheme: "vsrc", tab: srcTab, calls: calls}
 	factories = append(factories, NewProviderFactory(func(ProviderSettings) Provider { return sp }))
+	yp := &vProv{scheme: "vyaml", inline: true, calls: calls}
+	factories = append(factories, NewProviderFactory(func(ProviderSettings) Provider { return yp }))
 
+	// every Resolve runs under a watchdog: deadline -> cancel ctx (providers honour it) -> grace period
 	var conf *Conf
 	var err error
 	var panicked any
-	func() {
+	ctx, cancel := context.WithCancel(context.Background())
+	defer cancel()
+	done := make(chan struct{})
+	start := time.Now()
+	go func() {
+		defer close(done)
 		defer func() { panicked = recover() }()
 		var r *Resolver
 		r, err = NewResolver(ResolverSettings{URIs: uris, ProviderFactories: factories, DefaultScheme: c.defaultScheme})
 		if err != nil {
 			return
 		}
-		conf, err = r.Resolve(context.Background())
+		conf, err = r.Resolve(ctx)
 	}()
+	timedOut := false
+	select {
+	case <-done:
+	case <-time.After(vEnvMillis("VERIF_C12_DEADLINE_MS", 8000)):
+		timedOut = true
+		cancel()
+		select {
+		case <-done:
+		case <-time.After(vEnvMillis("VERIF_C12_GRACE_MS", 5000)):
+			stuck = true
+		}
+	}
+	ncalls := calls.n.Load()
+	if timedOut || ncalls > calls.budget {
+		tokOnly := 0
+		if c.tokOnly {
+			tokOnly = 1
+		}
+		out.Linef("op resolve hint=- tokonly=%d", tokOnly)
+		out.Linef("obs res hang")
+		out.Linef("stat kind_%s 1", c.kind)
+		out.Linef("viol sig=C12/terminate/resolve-does-not-return provider_calls=%d deadline_hit=%v returned_after_cancel=%v elapsed_ms=%d",
+			ncalls, timedOut, !stuck, time.Since(start).Milliseconds())
+		vHangs++
+		return stuck
+	}
+	if ncalls > vMaxCalls {
+		vMaxCalls = ncalls
+	}
+	if ms := time.Since(start).Milliseconds(); ms > vMaxMillis {
+		vMaxMillis = ms
+	}
 	hint := "-"
 	if err != nil {
 		hint = vErrClass(err)
@@ -518,6 +597,18 @@ func (c *vCase) run(out *vOut, idx int) {
 	out.Linef("stat sources %d", len(c.srcs))
 	if err != nil {
 		out.Linef("obs res err %s", hint)
+		// direct oracle: every top-level location of this harness exists and its provider never fails, so Resolve must
+		// retrieve it — also when the location text itself contains '$' (inline YAML with references, escapes, lone $):
+		// '$' is only an error inside a REFERENCE name
+		if strings.HasPrefix(err.Error(), "cannot retrieve the configuration") {
+			sig := "C12/source/valid-location-not-retrieved"
+			for _, u := range uris {
+				if strings.Contains(u, "$") {
+					sig = "C12/source/location-with-dollar-rejected"
+				}
+			}
+			out.Linef("viol sig=%s class=%s err=%s", sig, hint, vHexS(err.Error()))
+		}
 		out.Linef("stat err_%s 1", strings.SplitN(hint, ":", 2)[0])
 		// direct oracle: a value built only from well-formed tokens resolves without error
 		if c.tokOnly && len(c.toks) > 0 {
@@ -614,6 +705,7 @@ func (c *vCase) run(out *vOut, idx int) {
 			}
 		}
 	}
+	return false
 }
 
 func vDollarsOpen(s string) bool {
@@ -1049,12 +1141,41 @@ func vCorpus() []*vCase {
 	rep(0, 0, 1)
 	rep(0, 1, 1, 0, 2)
 	rep(2, 0, 2, 1)
+	// cycles reached through an EMBEDDED reference: always an error, never a hang, never a fixed point
+	mk("corpus", "", map[string]any{"endpoint": "http://${env:A}/v1"}, func(c *vCase) {
+		c.setYAML("env", "A", "${env:B}")
+		c.setYAML("env", "B", "${env:A}")
+	})
+	mk("corpus", "", []any{"${env:HOST}", "x ${env:HOST} y", "lit"}, func(c *vCase) { c.setYAML("env", "HOST", "host-${env:HOST}") })
+	mk("corpus", "", []any{[]any{"lit", "pre ${env:A}"}, "${env:X}", 1}, func(c *vCase) {
+		c.setYAML("env", "A", "${env:B}")
+		c.setYAML("env", "B", "b/${env:C}/b")
+		c.setYAML("env", "C", "${env:A}")
+	})
+	mk("corpus", "", "${env:M}", func(c *vCase) {
+		c.setYAML("env", "M", "{a: \"x ${env:A}\", b: [1, \"${env:A}\"]}")
+		c.setYAML("env", "A", "a${env:B}")
+		c.setYAML("env", "B", "${env:A}")
+	})
+	// top-level locations that embed their content (what --config=yaml:… / --set produce), with references, escapes, lone $
+	inl := func(texts ...string) {
+		c := vNewCase()
+		c.kind = "corpus"
+		c.setYAML("env", "X", "foo")
+		for i, t := range texts {
+			vInlineText(c, i, t)
+		}
+		cs = append(cs, c)
+	}
+	inl("k0: ${env:X}:4317")
+	inl("k1: pa$$word\nk2: $\nk3: a$b")
+	inl("{k0: \"a $${env:X} ${env:X}\", k1: [1, \"${env:X}\"]}", "k0: ${env:X}", "n: {m: \"${env:X}$$\"}")
 	return cs
 }
 
 // vGenChain: providers env:L0 -> L1 -> … -> Lk (k = 1..3), each link mentioning the next once or twice, as a whole
-// value, embedded, or inside a structured (map/list) YAML value; the last link is plain — or, 1 in 30, refers to
-// itself (a cycle: must be an error). The config refers to the links from list elements (the deepest chain preferably
+// value, embedded, or inside a structured (map/list) YAML value; the last link is plain — or, 1 in 25, leads
+// into a reference cycle of length 1..3 (whole or embedded links; must be an error). The config refers to the links from list elements (the deepest chain preferably
 // NOT in the last position), map values and nested combinations. No '$' other than in "${": the leftover oracle applies.
 func vGenChain(c *vCase, rnd *rand.Rand) {
 	depth := 1 + rnd.IntN(3)
@@ -1086,12 +1207,21 @@ func vGenChain(c *vCase, rnd *rand.Rand) {
 		c.setYAML("env", "L"+strconv.Itoa(i), y)
 	}
 	last := "L" + strconv.Itoa(depth)
-	if rnd.IntN(30) == 0 {
-		if rnd.IntN(4) > 0 {
-			c.setYAML("env", last, "${env:"+last+"}")
-		} else {
-			c.setYAML("env", last, "c-${env:"+last+"}")
+	if rnd.IntN(25) == 0 {
+		// a reference cycle of length 1..3 (C0 -> C1 -> C2 -> C0) of string values, reached from the last link; every link
+		// is the whole value or EMBEDDED in a longer string (then the text grows every round); must be an error
+		m := 1 + rnd.IntN(3)
+		grow := rnd.IntN(3) == 0
+		for i := 0; i < m; i++ {
+			nx := "${env:C" + strconv.Itoa((i+1)%m) + "}"
+			v := nx
+			if grow && (i == 0 || rnd.IntN(2) == 0) {
+				v = []string{"c-" + nx, nx + "/v1", "host-" + nx + ":1"}[rnd.IntN(3)]
+			}
+			c.setYAML("env", "C"+strconv.Itoa(i), v)
 		}
+		c.setYAML("env", last, []string{"${env:C0}", "http://${env:C0}/v1", "{a: \"x ${env:C0}\", b: [1, \"${env:C0}\"]}",
+			"[\"${env:C0}\", 1]", "${env:C0}"}[rnd.IntN(5)])
 	} else {
 		c.setYAML("env", last, []string{"v", "8080", "{value: 123}", "[1, 2]", "true", "x y", "", "a}b"}[rnd.IntN(8)])
 	}
@@ -1146,6 +1276,47 @@ func vGenChain(c *vCase, rnd *rand.Rand) {
 	c.srcs = []any{m}
 }
 
+// vInlineLoc turns every entry of location l into a top-level location that embeds its content: the source map is
+// written as flow YAML (JSON) text, the URI is "vyaml:<text>", and srcs[i] becomes what the real constructor parses
+func vInlineLoc(c *vCase, l int) {
+	for i := range c.srcs {
+		li := i
+		if c.loc != nil {
+			li = c.loc[i]
+		}
+		m, ok := c.srcs[i].(map[string]any)
+		if li != l || !ok {
+			continue
+		}
+		var b strings.Builder
+		enc := json.NewEncoder(&b)
+		enc.SetEscapeHTML(false)
+		if enc.Encode(m) != nil {
+			continue
+		}
+		vInlineText(c, i, strings.TrimSuffix(b.String(), "\n"))
+	}
+}
+
+func vInlineText(c *vCase, i int, text string) {
+	ret, err := NewRetrievedFromYAML([]byte(text))
+	if err != nil {
+		return
+	}
+	pm, ok := ret.rawConf.(map[string]any)
+	if !ok {
+		return
+	}
+	if c.inline == nil {
+		c.inline = map[int]string{}
+	}
+	for len(c.srcs) <= i {
+		c.srcs = append(c.srcs, nil)
+	}
+	c.srcs[i] = pm
+	c.inline[i] = text
+}
+
 func vGenCase(idx int, rnd *rand.Rand) *vCase {
 	c := vNewCase()
 	if rnd.IntN(2) == 0 {
@@ -1193,6 +1364,11 @@ func vGenCase(idx int, rnd *rand.Rand) *vCase {
 		if rnd.IntN(5) < 2 {
 			vRepeat(c, rnd, false)
 		}
+		for l := range c.srcs {
+			if rnd.IntN(3) == 0 {
+				vInlineLoc(c, l)
+			}
+		}
 	default: // several sources with references, token values on top
 		c.kind = "mixed"
 		vGenProviders(c, rnd, 0.8)
@@ -1208,6 +1384,11 @@ func vGenCase(idx int, rnd *rand.Rand) *vCase {
 		if rnd.IntN(4) == 0 {
 			vRepeat(c, rnd, true)
 		}
+		for l := range c.srcs {
+			if rnd.IntN(3) == 0 {
+				vInlineLoc(c, l)
+			}
+		}
 	}
 	return c
 }
@@ -1219,10 +1400,17 @@ func TestVerifC12Resolve(t *testing.T) {
 	corpus := vCorpus()
 	n := vN(2000)
 	for _, idx := range vCases(n) {
+		var stuck bool
 		if idx < len(corpus) {
-			corpus[idx].run(out, idx)
-			continue
+			stuck = corpus[idx].run(out, idx)
+		} else {
+			stuck = vGenCase(idx, vRand(idx)).run(out, idx)
 		}
-		vGenCase(idx, vRand(idx)).run(out, idx)
+		if stuck || vHangs >= 3 {
+			// a Resolve that does not return cannot be killed; three replays are enough, stop here
+			out.Linef("# stopped after %d watchdog hits (stuck=%v)", vHangs, stuck)
+			break
+		}
 	}
+	out.Linef("# max_provider_calls=%d max_resolve_ms=%d", vMaxCalls, vMaxMillis)
 }
